@@ -8,6 +8,7 @@ operands; the reference interpreter executes the same wrapper with the instructi
 """
 
 import json
+import os
 import random
 import re
 import shutil
@@ -50,10 +51,21 @@ ASSUMPTIONS = [
 MONITOR = "instr-vs-body"
 
 
+def _max_par():
+    """gcc builds of 16 shards at once run into cbuild's compile watchdog when the host is
+    oversubscribed by other jobs: fewer shards at a time then (scheduling only, never a verdict)"""
+    try:
+        load = os.getloadavg()[0]
+    except OSError:
+        load = 0.0
+    return int(min(common.NCPU, max(4, common.NCPU - load)))
+
+
 def plan(tier, seed):
     quick = tier == "quick"
     return {
         "nshards": 16,
+        "max_par": _max_par(),
         "params": {
             "soft_s": 420 if quick else 3000,
             "placements": 2 if quick else 8,
